@@ -26,8 +26,16 @@ func genOrderSpec(c *ctxT) HSpec {
 	if c.rng.Chance(4) {
 		s.Num, s.NumPrime, s.NumRegion = 0, 0, 0
 	}
+	if c.rng.Chance(6) {
+		// numbers wider than 64 bits (no width limit on the wire); with the low 64 bits zero CalcOrder's
+		// NumberU64()==0 shortcut applies although the number is not zero
+		w := new(big.Int).Mul(two64, []*big.Int{big.NewInt(1), big.NewInt(5), two64}[c.rng.Intn(3)]).String()
+		s.NumX, s.NumPrimeX = w, w
+	}
 	var diff *big.Int
-	switch c.rng.Pick(2, 2, 3, 10, 10, 1, 1) {
+	switch c.rng.Pick(2, 2, 3, 10, 10, 1, 1, 1) {
+	case 7:
+		diff = new(big.Int).Add(two256, randBig(c, 1+c.rng.Intn(64))) // wider than a hash: the target is zero
 	case 0:
 		diff = big.NewInt(2)
 	case 1:
@@ -240,20 +248,28 @@ func corpus(c *ctxT) []Case {
 	for i := 0; i < 6; i++ {
 		out = append(out, genCache(c))
 	}
+	for i := 0; i < 14; i++ {
+		out = append(out, genHist(c))
+	}
 	c.rng = saved
 	// one complete deviation sweep per parent shape
-	for shape := 0; shape < 5; shape++ {
+	for shape := 0; shape < numShapes; shape++ {
 		out = append(out, verifyCases(c, shape, -1)...)
 	}
+	// a second work-share parent and a second wide-number parent (other share distances / other widths)
+	out = append(out, verifyCases(c, 5, 12)...)
+	out = append(out, verifyCases(c, 6, 12)...)
 	out = append(out, Case{ID: c.next(), Kind: "chain", Z: zs(big.NewInt(12), big.NewInt(4711))})
 	return out
 }
 
 // ---------- random generation ----------
 
+const numShapes = 7 // parent shapes of genPair
+
 func generate(c *ctxT, n int, tier string) {
 	for i := 0; i < n; i++ {
-		switch c.rng.Pick(22, 14, 10, 12, 3, 6, 14, 8, 2) {
+		switch c.rng.Pick(22, 14, 10, 12, 3, 6, 14, 6, 2, 7) {
 		case 0:
 			c.run(genPure(c))
 		case 1:
@@ -267,12 +283,14 @@ func generate(c *ctxT, n int, tier string) {
 		case 5:
 			c.run(genBaseFee(c))
 		case 6:
-			shape := c.rng.Pick(6, 4, 2, 2, 1)
+			shape := c.rng.Pick(6, 4, 2, 2, 1, 5, 3)
 			for _, cs := range verifyCases(c, shape, 5) {
 				c.run(cs)
 			}
 		case 7:
 			c.run(genCache(c))
+		case 9:
+			c.run(genHist(c))
 		default:
 			c.run(Case{ID: c.next(), Kind: "chain", Z: zs(big.NewInt(int64(4+c.rng.Intn(12))), u(c.rng.Next()%1000000))})
 		}
